@@ -1,6 +1,7 @@
 package main
 
 import (
+	"go/constant"
 	"fmt"
 	"go/token"
 	"go/types"
@@ -674,8 +675,28 @@ func c07verifyShape(p *Prog, r *Report) {
 						continue
 					}
 					if !onlyReturnsConstBool(s, 0, false, map[*ssa.BasicBlock]bool{}) {
-						okLoop = false
-						detail = "the verification loop has an exit at " + p.ipos(b.Instrs[len(b.Instrs)-1]) + " that does not return false"
+						// the same on feasible paths: every return reachable through this exit yields false
+						bad := false
+						forwardFromEdge(b, s, func(x *ssa.BasicBlock) bool {
+							if bad {
+								return false
+							}
+							if lp.body[x] {
+								return false // back inside the loop: not an exit path
+							}
+							if ret, isRet := x.Instrs[len(x.Instrs)-1].(*ssa.Return); isRet {
+								c, isC := ret.Results[0].(*ssa.Const)
+								if !isC || c.Value == nil || c.Value.Kind() != constant.Bool || constant.BoolVal(c.Value) {
+									bad = true
+								}
+								return false
+							}
+							return true
+						})
+						if bad {
+							okLoop = false
+							detail = "the verification loop has an exit at " + p.ipos(b.Instrs[len(b.Instrs)-1]) + " that does not return false"
+						}
 					}
 				}
 			}
